@@ -173,7 +173,6 @@ func Exec(t *testing.T, h *Harness, prop string, cs simcore.Case, seed uint64, r
 		choices = append([]int32(nil), s.Choices...)
 		res.NChoices = len(choices)
 		tr = s.Trace
-		res.WallUs = time.Since(t0).Microseconds()
 	}
 	func() {
 		defer func() {
@@ -220,6 +219,7 @@ func Exec(t *testing.T, h *Harness, prop string, cs simcore.Case, seed uint64, r
 		})
 	}()
 	simrt.Detach()
+	res.WallUs = time.Since(t0).Microseconds() // real clock: measured outside the bubble
 	return
 }
 
